@@ -187,6 +187,20 @@ def corr_tables(ck):
 # ---------------------------------------------------------------------------------------------------------------
 # (b1) exhaustive organic environment space on real molecules
 
+ALL_ENVS_COQ = """Definition bond_types : list (Z * Z) := flat_map (fun o => map (fun z => (o, z)) [6; 7; 8; 16; 9; 17]) [1; 2; 3].
+Fixpoint multisets (types : list (Z * Z)) (k : nat) : list env :=
+  match types with
+  | [] => match k with O => [[]] | S _ => [] end
+  | t :: r => (fix with_t (k : nat) : list env :=
+                 match k with
+                 | O => [[]]
+                 | S k' => map (cons t) (with_t k') ++ multisets r (S k')
+                 end) k
+  end.
+Definition all_envs : list env := flat_map (multisets bond_types) [0; 1; 2; 3; 4]%nat.
+"""
+
+
 def _sweep_worker(bounds):
     """for every environment of the slice: a real molecule (built through add_atom / add_bond, i.e. the whole
     fix_structure pipeline), then every (element, charge, radical) state of the centre: calc_implicit, check_implicit(0..5)"""
@@ -274,8 +288,10 @@ def corr_exhaustive(ck):
 
     def one(j):
         sym = ORGANIC[j]
+        # the enumeration of the space is restated here (same text as Proofs.ValenceProofs.all_envs) so that the tie does not
+        # depend on the proof file: when a table theorem breaks, the correspondence still runs
         text = ('From Coq Require Import ZArith List String Bool.\nFrom Model Require Import PyBase Graph PeriodicTable Valence.\n'
-                'From Gen Require Import Elements.\nFrom Proofs Require Import ValenceProofs.\nImport ListNotations.\nOpen Scope Z_scope.\n'
+                'From Gen Require Import Elements.\nImport ListNotations.\nOpen Scope Z_scope.\n' + ALL_ENVS_COQ +
                 f'Definition expected : list Z := {lst([rows[i][j] for i in range(len(ENVS))], zraw, per_line=4)}.\n'
                 f'Definition result : list (nat * Z) := match from_symbol {cstr(sym)} with\n'
                 f'  | Some e => let t := compiled_rules e in firstn 30 (mismatches 0 (map (env_digest t (e_num e) {states_term}) all_envs) expected)\n'
@@ -332,6 +348,141 @@ def replay_env(sym, c, r, env):
             f'm.add_atom(Element.from_symbol({sym!r})(charge={c}, is_radical={r}))\n'
             f'for o, z in {list(env)!r}:\n    m.add_bond(1, m.add_atom(z), o)\n'
             'print(m.atom(1).implicit_hydrogens, [m.check_implicit(1, h) for h in range(6)])')
+
+
+# ---------------------------------------------------------------------------------------------------------------
+# (b1') exhaustive aromatic environment space on real molecules
+
+AROM_A9 = [(4, 6), (4, 7), (1, 6), (1, 8), (2, 8), (2, 6), (3, 6), (8, 26), (1, 1)]
+AROM_A3 = [(4, 6), (1, 6), (2, 8)]
+AROM_SPACE = [e for k in (1, 2, 3, 4) for e in itertools.product(AROM_A9, repeat=k) if any(o == 4 for o, _ in e)] + \
+             [e for e in itertools.product(AROM_A3, repeat=5) if any(o == 4 for o, _ in e)]
+AROM_CENTRES = ['C', 'N', 'O', 'S', 'B', 'P', 'Si', 'H', 'Fe']
+
+
+def arom_expected(sym, c, r, env):
+    """the delocalised branch as its comments describe it (H-Ar, R-Ar, condensed rings, invalid aromaticity; only neutral
+    carbon), written apart from the model"""
+    if sym == 'H':
+        return 0
+    if sym != 'C' or c or r:
+        return None
+    n4 = sum(1 for o, _ in env if o == 4)
+    sg = sum(o for o, _ in env if o not in (4, 8))
+    if n4 == 2:
+        return {0: 1, 1: 0}.get(sg)
+    if n4 == 3:
+        return 0 if sg == 0 else None
+    return None
+
+
+def _arom_worker(bounds):
+    import boot  # noqa
+    from chython import MoleculeContainer
+    from chython.periodictable import Element
+    lo, hi = bounds
+    atoms = {sym: [Element.from_symbol(sym)(charge=c, is_radical=r) for c, r in STATES] for sym in AROM_CENTRES}
+    out, bad = [], []
+    for idx in range(lo, hi):
+        env = AROM_SPACE[idx]
+        m = MoleculeContainer()
+        m.add_atom('C')
+        for o, z in env:
+            m.add_bond(1, m.add_atom(z), o)
+        stored = m._atoms[1].implicit_hydrogens
+        row = []
+        for sym in AROM_CENTRES:
+            dig = 0
+            for a, (c, r) in zip(atoms[sym], STATES):
+                m._atoms[1] = a
+                try:
+                    m.calc_implicit(1)
+                    h = a.implicit_hydrogens
+                    code = calc_code(h)
+                except Exception:
+                    h = 'raised'
+                    code = 7
+                mask = check_mask(m, 1)
+                dig = dig * 512 + code * 64 + mask
+                exp = arom_expected(sym, c, r, env)
+                if h != exp or mask != (1 if sym == 'H' else 0) or (sym == 'C' and c == 0 and not r and stored != h):
+                    bad.append((idx, sym, c, r, h, exp, mask, stored))
+            row.append(dig)
+        out.append(row)
+    return lo, out, bad
+
+
+def corr_aromatic(ck):
+    nw = max(2, min(8, (os.cpu_count() or 4) // 2))
+    step = 200
+    slices = [(i, min(i + step, len(AROM_SPACE))) for i in range(0, len(AROM_SPACE), step)]
+    rows = [None] * len(AROM_SPACE)
+    bad = []
+    with cf.ProcessPoolExecutor(max_workers=nw) as ex:
+        for lo, out, b_ in ex.map(_arom_worker, slices):
+            rows[lo:lo + len(out)] = out
+            bad += b_
+    n_cases = len(AROM_SPACE) * len(AROM_CENTRES) * len(STATES)
+    ck.count('aromatic:ordered neighbour lists', len(AROM_SPACE))
+    ck.count('aromatic:(element,charge,radical,neighbour list) states', n_cases)
+    ck.evaluations += n_cases * 7
+    nontriv = sum(1 for i, row in enumerate(rows) for j, dig in enumerate(row) if AROM_CENTRES[j] == 'C' and (dig >> (9 * 5 + 6)) & 7)
+    ck.count('aromatic:neutral carbon states with a hydrogen count', nontriv)
+    for i in range(nontriv):
+        ck.distinct.add(('arom', i))
+    states_term = lst(STATES, lambda cr: tup(zraw(cr[0]), b(cr[1])))
+
+    def one(j):
+        sym = AROM_CENTRES[j]
+        text = ('From Coq Require Import ZArith List String Bool.\nFrom Model Require Import PyBase Graph PeriodicTable Valence ValenceArom.\n'
+                'From Gen Require Import Elements.\nImport ListNotations.\nOpen Scope Z_scope.\n'
+                f'Definition expected : list Z := {lst([rows[i][j] for i in range(len(AROM_SPACE))], zraw, per_line=4)}.\n'
+                f'Definition result : list (nat * Z) := match from_symbol {cstr(sym)} with\n'
+                f'  | Some e => let t := compiled_rules e in firstn 30 (mismatches 0 (map (env_digest t (e_num e) {states_term}) arom_space) expected)\n'
+                '  | None => [(0%nat, -2)] end.\nEval vm_compute in result.\n')
+        ok, out = common.coq_eval(f'c04a_{j}', text, 900)
+        flat = out.replace('\n', ' ')
+        if not ok or ': list (nat * Z)' not in flat:
+            return j, None, out[-1500:]
+        mm = re.findall(r'\((\d+)%nat,\s*\(?(-?\d+)\)?\)', flat)
+        return j, [(int(i), int(v)) for i, v in mm], ''
+
+    good = True
+    details = []
+    with cf.ThreadPoolExecutor(max_workers=nw) as ex:
+        for j, mis, log in ex.map(one, range(len(AROM_CENTRES))):
+            if mis is None:
+                good = False
+                details.append(f'{AROM_CENTRES[j]}: model evaluation failed: {log}')
+                continue
+            for i, model_dig in mis:
+                good = False
+                if i >= len(AROM_SPACE):
+                    details.append(f'{AROM_CENTRES[j]}: enumeration length differs')
+                    continue
+                real_dig = rows[i][j]
+                for k, (c, r) in enumerate(reversed(STATES)):
+                    rc, mc = (real_dig >> (9 * k)) & 511, (model_dig >> (9 * k)) & 511
+                    if rc != mc:
+                        details.append(repr({'atom': env_smiles(AROM_CENTRES[j], c, r, AROM_SPACE[i]),
+                                             'implementation (calc code, check mask)': (rc >> 6, rc & 63),
+                                             'model (calc code, check mask)': (mc >> 6, mc & 63)}))
+    ck.oblige(f'correspondence: calc_implicit / check_implicit(h=0..5) on the exhaustive aromatic space ({n_cases} atom states on real molecules, '
+              'every neighbour order) == Coq model', good, 'correspondence', '\n'.join(details[:10]))
+    ck.sample({'aromatic neighbour list': AROM_SPACE[700], 'digest of the 10 (charge, radical) states of C': rows[700][0]})
+    if not good:
+        ck.unchecked('correspondence Valence.calc_env/check_env vs MoleculeContainer.calc_implicit/check_implicit (aromatic space)',
+                     '\n'.join(details[:10]), details[:20])
+    capped = Capped(ck, 8)
+    for idx, sym, c, r, h, exp, mask, stored in bad:
+        env = AROM_SPACE[idx]
+        capped.counterexample(f'aromatic:{sym}:{c}:{int(r)}:{"".join(f"{o}-{z}." for o, z in env)}',
+                              'hydrogen count of an atom with aromatic bonds is not the documented one (neutral carbon: 2 aromatic bonds -> 1 H, 2 aromatic + one '
+                              'single bond or 3 aromatic bonds -> 0 H, anything else and any other atom -> None; check_implicit refuses aromatic atoms; '
+                              'add_bond stores what calc_implicit gives)', env_smiles(sym, c, r, env),
+                              {'calc_implicit': h, 'check_implicit mask': mask, 'stored by add_bond': stored}, exp,
+                              'closed form written from the comments of calc_implicit', replay_py=replay_env(sym, c, r, env))
+    return good
 
 
 # ---------------------------------------------------------------------------------------------------------------
@@ -548,6 +699,205 @@ def corr_molecules(ck):
         ck.unchecked('correspondence Valence model vs MoleculeContainer on whole molecules', log[-1500:],
                      [repr(meta[i]) + ' :: ' + cases[i][:1500] for i in failing[:20]])
     return good
+
+
+# ---------------------------------------------------------------------------------------------------------------
+# directed search for the table theorems: the molecule of every tabulated rule, judged without the tables
+
+NOBLE = (0, 2, 10, 18, 36, 54, 86, 118)
+
+
+def valence_electrons(z):
+    """valence electrons of a main-group element from its atomic number alone (position after the preceding noble gas);
+    None for d- and f-block elements.  Written from the shape of the periodic table, not from chython's group classes."""
+    if z == 1 or z == 2:
+        return z
+    p = max(x for x in NOBLE if x < z)
+    k, length = z - p, {2: 8, 10: 8, 18: 18, 36: 18, 54: 32, 86: 32}[p]
+    if k <= 2:
+        return k
+    k -= length - 8              # skip the d (and f) block
+    return k if k >= 3 else None
+
+
+def lone_electrons(m, n, h):
+    """electrons left on atom n after its charge, all its bonds (order-8 bonds ignored, h implicit hydrogens) and the
+    radical electron; None for a transition element or an aromatic bond"""
+    a = m._atoms[n]
+    ve = valence_electrons(a.atomic_number)
+    if ve is None or any(int(bd) == 4 for bd in m._bonds[n].values()):
+        return None
+    return ve - a.charge - sum(int(bd) for bd in m._bonds[n].values() if int(bd) != 8) - h - (1 if a.is_radical else 0)
+
+
+def parity_exempt(m, n, h):
+    """the two standing classes of odd-electron states of the tables, described by the state of the atom (the same two
+    classes the theorem rule_electron_parity names): the elemental state - an uncharged, non-radical atom without bonds and
+    hydrogens (`[Na]`, `[Al]`, `[P]`) - and bismuth(II) / bismuth(IV) without hydrogens"""
+    a = m._atoms[n]
+    if a.charge or a.is_radical or h:
+        return False
+    v = sum(int(bd) for bd in m._bonds[n].values() if int(bd) != 8)
+    return v == 0 or (a.atomic_number == 83 and v in (2, 4))
+
+
+def gen_rule_family():
+    """deterministic: for every element the molecules its table speaks about.  An exception rule (charge, radical, n, env)
+    stands for n + 1 compiled rules (n - k hydrogens replaced by k further single bonds): env + k carbons for k = 0..n, and
+    env + one explicit hydrogen.  A common valence v: k carbons for k = 0..v, and one double / triple bond to carbon + carbons."""
+    from chython.periodictable import Element
+    out = []
+    for cls in Element.__subclasses__():
+        e0 = cls()
+        sym = cls.__name__
+        for v in e0._common_valences:
+            for k in range(0, min(v, 8) + 1):
+                out.append((('common', sym, v, k), cls(), [(1, 'C')] * k))
+            for o in (2, 3):
+                if o <= v <= 8:
+                    out.append((('common-multi', sym, v, o), cls(), [(o, 'C')] + [(1, 'C')] * (v - o)))
+        for i, (chg, rad, h, env) in enumerate(e0._valences_exceptions):
+            if len(env) > 10:
+                continue
+            for k in range(h + 1):
+                out.append((('rule', sym, i, k), cls(charge=chg, is_radical=rad), list(env) + [(1, 'C')] * k))
+            if h:
+                out.append((('rule+H', sym, i), cls(charge=chg, is_radical=rad), list(env) + [(1, 'H')]))
+    return out
+
+
+RD_ORDER = None
+
+
+def rd_total_hs(m):
+    """RDKit's own hydrogen count of every atom of the bare graph (elements, charges, radicals, bonds; no hydrogen counts
+    are handed over): {atom: total H} or None when RDKit refuses the graph or a bond has no RDKit counterpart"""
+    from rdkit import Chem
+    global RD_ORDER
+    if RD_ORDER is None:
+        RD_ORDER = {1: Chem.BondType.SINGLE, 2: Chem.BondType.DOUBLE, 3: Chem.BondType.TRIPLE}
+    rw = Chem.RWMol()
+    idx = {}
+    for n, a in m.atoms():
+        ra = Chem.Atom(a.atomic_number)
+        ra.SetFormalCharge(a.charge)
+        if a.is_radical:
+            ra.SetNumRadicalElectrons(1)
+        idx[n] = rw.AddAtom(ra)
+    for n, k, bd in m.bonds():
+        if int(bd) not in RD_ORDER:
+            return None
+        rw.AddBond(idx[n], idx[k], RD_ORDER[int(bd)])
+    mol = rw.GetMol()
+    try:
+        Chem.SanitizeMol(mol)
+    except Exception:
+        return None
+    return {n: mol.GetAtomWithIdx(i).GetTotalNumHs(includeNeighbors=True) for n, i in idx.items()}
+
+
+def replay_build(centre, env):
+    return ('from chython import MoleculeContainer\nfrom chython.periodictable import Element\nm = MoleculeContainer()\n'
+            f'm.add_atom(Element.from_symbol({centre.atomic_symbol!r})(charge={centre.charge}, is_radical={centre.is_radical}))\n'
+            f'for o, e in {list(env)!r}:\n    m.add_bond(1, m.add_atom(e), o)\n'
+            'print(str(m), [(n, a.atomic_symbol, a.implicit_hydrogens) for n, a in m.atoms()], [h for h in range(9) if m.check_implicit(1, h)])')
+
+
+def directed_tables(ck):
+    """Runs on every check (so that it is known to be silent on the unchanged tree) and is THE directed search when a table
+    theorem (tables_compile, rule_electron_parity, organic_octet) no longer builds: a changed rule must show as a concrete
+    molecule of the real code.  Oracles, none of which reads chython's tables:
+      compile   every element's _compiled_valence_rules can be built
+      parity    electrons left on the centre (valence electrons by atomic number - charge - bonds - hydrogens - radical) are
+                >= 0 and even, for the stored count and for EVERY count check_implicit accepts (rules shadowed by an earlier
+                rule are reached this way); whole molecule: sum of atomic numbers + hydrogens - charge is even iff the number
+                of radical atoms is even (main-group atoms only)
+      octet     organic subset outside the hypervalent states: the stored count is the octet count
+      rdkit     organic-subset atoms of graphs RDKit accepts: same total hydrogens (both sides having a count)"""
+    from chython.periodictable import Element
+    from rdkit import RDLogger
+    RDLogger.DisableLog('rdApp.*')
+    ck = Capped(ck, 6)
+    for cls in Element.__subclasses__():
+        try:
+            cls()._compiled_valence_rules
+        except Exception as e:
+            ck.counterexample(f'tables-compile:{cls.__name__}', f'the valence table of {cls.__name__} cannot be compiled: {type(e).__name__}: {e}',
+                              {'element': cls.__name__}, type(e).__name__, 'a rule dictionary', 'Element._compiled_valence_rules must be computable for all 118 elements',
+                              replay_py=f'from chython.periodictable import {cls.__name__}; print(len({cls.__name__}()._compiled_valence_rules))')
+    fam = gen_rule_family()
+    for tag, centre, env in fam:
+        try:
+            m = build(centre, env)
+        except Exception:
+            ck.count('directed:build failed')
+            continue
+        a = m._atoms[1]
+        sym, st = a.atomic_symbol, (a.atomic_symbol, a.charge, a.is_radical)
+        ck.case(('directed',) + tag)
+        ck.count('directed:molecules')
+        if a.atomic_number == 1:
+            ck.count('directed:hydrogen centre (its table is never consulted by calc_implicit / check_implicit)')
+            continue
+        stored = a.implicit_hydrogens
+        accepted = [h for h in range(9) if m.check_implicit(1, h)]
+        rp = replay_build(centre, env)
+        inp = {'molecule': str(m), 'centre': {'element': sym, 'charge': a.charge, 'radical': a.is_radical},
+               'bonds': [{'order': o, 'neighbour': e} for o, e in env]}
+        # parity, atom level
+        if valence_electrons(a.atomic_number) is not None:
+            for h in ([stored] if stored is not None else []) + [h for h in accepted if h != stored]:
+                le = lone_electrons(m, 1, h)
+                if le is None or parity_exempt(m, 1, h):
+                    ck.count('directed:parity exempt (elemental state, Bi(II)/Bi(IV))')
+                    continue
+                ck.count('directed:parity judged')
+                if le < 0 or le % 2:
+                    which = 'calc_implicit gives' if h == stored else 'check_implicit accepts'
+                    ck.counterexample(f'rule-parity:{sym}:{a.charge}:{int(a.is_radical)}:{h}:{"".join(f"{o}{e}." for o, e in sorted(env))}',
+                                      f'{which} {h} implicit hydrogen(s) on the {sym} of {m}: that leaves {le} electron(s) on the atom (must be even and >= 0)',
+                                      inp, {'stored': stored, 'accepted by check_implicit': accepted}, 'an even, non-negative number of remaining electrons',
+                                      'electron count from the atomic number (independent of the valence tables)', replay_py=rp)
+        # parity, molecule level
+        atoms = [x for _, x in m.atoms()]
+        if all(x.implicit_hydrogens is not None for x in atoms) and all(valence_electrons(x.atomic_number) is not None for x in atoms) \
+                and not any(parity_exempt(m, n, x.implicit_hydrogens) for n, x in m.atoms()) and not any(x.atomic_number == 1 for x in atoms):
+            el = sum(x.atomic_number + x.implicit_hydrogens - x.charge for x in atoms)
+            nr = sum(1 for x in atoms if x.is_radical)
+            ck.count('directed:molecule parity judged')
+            if el % 2 != nr % 2:
+                ck.counterexample(f'mol-parity:{m}', f'{m} has {el} electrons and {nr} radical atom(s)', inp,
+                                  [(n, x.atomic_symbol, x.implicit_hydrogens) for n, x in m.atoms()], 'even electron count iff even number of radical atoms',
+                                  'sum of atomic numbers + implicit hydrogens - charge', replay_py=rp)
+        # octet
+        # (claimed on the space of the theorem organic_octet, explicit hydrogens added: at most four bonds to C N O S F Cl H)
+        if sym in OCTET_ELECTRONS and abs(a.charge) <= 2 and st not in HYPERVALENT and len(env) <= 4 and \
+                all(e in ('C', 'N', 'O', 'S', 'F', 'Cl', 'H') and o in (1, 2, 3) for o, e in env):
+            env_n = [(o, 0) for o, _ in env if o != 8]
+            o8 = octet(sym, a.charge, a.is_radical, env_n)
+            ck.count('directed:octet judged')
+            if (o8 is not None and stored is not None and stored != o8) or (o8 is None and stored is not None) or \
+                    (o8 is not None and stored is None and st in OCTET_SUPPORTED):
+                ck.counterexample(f'rule-octet:{sym}:{a.charge}:{int(a.is_radical)}:{"".join(f"{o}{e}." for o, e in sorted(env))}',
+                                  f'hydrogen count of the {sym} of {m} differs from the octet rule (not a hypervalent state)', inp, stored, o8,
+                                  'octet rule (independent of the tables)', replay_py=rp)
+        # RDKit
+        if not any(int(bd) in (4, 8) for *_, bd in m.bonds()):
+            rd = rd_total_hs(m)
+            if rd is None:
+                ck.count('directed:rdkit refuses the graph')
+            else:
+                for n, x in m.atoms():
+                    if x.atomic_symbol not in OCTET_ELECTRONS or x.implicit_hydrogens is None:
+                        continue
+                    if len(m) == 1:
+                        continue            # a bare atom is the element itself for chython (`[B]`), a hydride for RDKit
+                    ck.count('directed:rdkit atoms judged')
+                    th = x.implicit_hydrogens + x.explicit_hydrogens
+                    if th != rd[n]:
+                        ck.counterexample(f'rule-rdkit:{m}:{n}', f'total hydrogens of atom {n} ({x.atomic_symbol}) of {m} differ from RDKit', inp, th, rd[n],
+                                          'RDKit valence model on the bare graph (no hydrogen counts handed over)', replay_py=rp)
+    ck.extra['directed_rule_molecules'] = len(fam)
 
 
 # ---------------------------------------------------------------------------------------------------------------
@@ -786,9 +1136,13 @@ def run(ck):
     lap('tables')
     tied_b = corr_exhaustive(ck)
     lap('exhaustive')
+    tied_d = corr_aromatic(ck)
+    lap('aromatic')
     tied_c = corr_molecules(ck)
     lap('molecules')
+    directed_tables(ck)
+    lap('directed')
     search(ck)
     lap('search')
     ck.extra['proved'] = proved
-    ck.extra['tied'] = bool(tied_a and tied_b and tied_c)
+    ck.extra['tied'] = bool(tied_a and tied_b and tied_c and tied_d)
